@@ -587,6 +587,40 @@ theorem C09_after_every_frame_only_unexpired_incomplete (t : Nat) (frames : List
 example : (((Assembler.new 5).afterFrames [(0, some (Op.add 0 1 1 [7]))]).onFrame 5 none).1.pendingCount = 1 ∧
     (((Assembler.new 5).afterFrames [(0, some (Op.add 0 1 1 [7]))]).onFrame 6 none).1.pendingCount = 0 := by decide
 
+/-- … and this history is one of them: sequence 1 starts while nothing is pending, sequence 2 starts while 1 is incomplete,
+sequence 1 COMPLETES (and leaves), sequence 2 goes silent; timeout 20. It is held after the completing frame, gone after a
+tick at 60 — whether the older sequence completed or not plays no part —, and its last fragments, arriving after that, do
+not complete a message. -/
+example :
+    ((Assembler.new 20).afterFrames [(0, some (Op.start 0 1 2 none [1])), (0, some (Op.start 0 2 3 none [2])),
+      (0, some (Op.add 0 1 1 [3]))]).pendingCount = 1 ∧
+    (((Assembler.new 20).afterFrames [(0, some (Op.start 0 1 2 none [1])), (0, some (Op.start 0 2 3 none [2])),
+      (0, some (Op.add 0 1 1 [3]))]).onFrame 60 none).1.pendingCount = 0 ∧
+    ((((Assembler.new 20).afterFrames [(0, some (Op.start 0 1 2 none [1])), (0, some (Op.start 0 2 3 none [2])),
+      (0, some (Op.add 0 1 1 [3])), (60, none), (60, some (Op.add 60 2 2 [4]))]).onFrame 60 (some (Op.add 60 2 1 [5]))).2 = none) := by
+  decide
+
+/-- A SEQUENCE THAT WENT SILENT PAST THE TIMEOUT IS GONE AFTER THE NEXT FRAME — whatever that frame is and whatever became of
+the other sequences (completed, expired, still in flight: `a` is ANY assembler state with one entry per id) — AND A FRAGMENT
+THAT ARRIVES FOR IT THEN COMPLETES NOTHING: the frame's `cleanup_expired` drops the entry, so a frame of another sequence or a
+tick leaves nothing held for `q`, and a continuation of `q` itself starts a new entry without a count and returns nothing. -/
+theorem C09_silent_sequence_expires_whatever_the_others_do (a : Assembler) (hw : WF a.pending) (q : Nat) (m : FragMsg)
+    (hq : lookup q a.pending = some m) (now : Nat) (hexp : a.timeout < now - m.last) :
+    lookup q (a.onFrame now none).1.pending = none ∧
+    (∀ op q', Op.seq op = some q' → q' ≠ q → lookup q (a.onFrame now (some op)).1.pending = none) ∧
+    (∀ now' fid d, (a.onFrame now (some (Op.add now' q fid d))).2 = none) := by
+  have hgone : lookup q (a.cleanupExpired now).1.pending = none := by
+    rw [(C09_cleanup_drops_exactly_expired a hw now q).1, hq]
+    have : ¬ now - m.last ≤ a.timeout := by omega
+    simp [Option.filter, this]
+  refine ⟨hgone, ?_, ?_⟩
+  · intro op q' hs hne
+    simp only [Assembler.onFrame]
+    rw [step_other _ op q q' hs hne]
+    exact hgone
+  · intro now' fid d
+    simp only [Assembler.onFrame, Assembler.step, Assembler.addFragment, hgone]
+
 /-- THE CONNECTION EXPIRES ON EVERY FRAME — tie of `Assembler.onFrame` to the source text of `Connection::receive_message`
 (extracted by the translator on every run): the calls on `self.fragment_assembler` are, in textual order, `cleanup_expired`,
 `start_fragment`, `add_fragment`; `cleanup_expired()` is the statement after `let data = self.read_message().await?;` inside
